@@ -59,3 +59,27 @@ Example C05_nonvacuous_checker :
   check_select ex_q ex_db ([("t", "k"); ("t", "a")], [[VStr "z"; VInt 2]; [VStr "y"; VInt 2]]) = true /\
   check_select ex_q ex_db ([("t", "k"); ("t", "a")], [[VStr "y"; VInt 2]; [VStr "x"; VInt 1]]) = false.
 Proof. vm_compute. split; reflexivity. Qed.
+
+(* ====================================================================================================
+   ORACLE vs. THEOREM (Proofs/SelectOracle.v). The correspondence run judges what Go returned with
+   sm_c05 (Spec/SelectObs.v): on a well_typed query Go must return rows that check_select accepts; other
+   queries are outside C05 and accepted. mm_select is the comparison of Go's answer with `select`.
+   Whenever the model agrees with Go the oracle accepts Go's answer - no hypothesis is needed, the oracle
+   decides its own scope with well_typed, the hypothesis of C05_model_meets_spec. So an SM verdict of C05
+   is never a false alarm on code that conforms to the model, and every SM rejection is a behaviour the
+   model (the subject of C05_model_meets_spec) does not have. *)
+From Mkdb Require Import Spec.SelectObs Proofs.SelectOracle.
+
+Theorem C05_agreement_implies_acceptance : forall c, mm_select c = true -> sm_c05 c = true.
+Proof. exact c05_agreement_implies_acceptance. Qed.
+Print Assumptions C05_agreement_implies_acceptance.
+
+(* non-vacuity: the query above; Go returns the OTHER member of the tie group in first place, which
+   the model comparison tolerates (window of a sorted permutation): the case is in the oracle's scope,
+   agrees, and is accepted; a wrong row neither agrees nor is accepted *)
+Example C05_agreement_nonvacuous :
+  let good := (ex_db, ex_q, GOk [("t", "k"); ("t", "a")] [[VStr "z"; VInt 2]; [VStr "y"; VInt 2]]) in
+  let bad := (ex_db, ex_q, GOk [("t", "k"); ("t", "a")] [[VStr "y"; VInt 2]; [VStr "x"; VInt 1]]) in
+  wt_c05 good = true /\ mm_select good = true /\ sm_c05 good = true /\
+  mm_select bad = false /\ sm_c05 bad = false.
+Proof. vm_compute. repeat split; reflexivity. Qed.
